@@ -149,6 +149,153 @@ def sweep(tkey, cname, unit=None, lo_hi=None, unit_how="attr"):
     return n, vs
 
 
+def _cvals(data, in_project):
+    """The CVAL words of the (last) module section of a written file."""
+    from struct import unpack
+
+    from rvref import codec
+
+    vals = []
+    for cid, d in codec.parse_chunks(data):
+        if cid == b"SFFF":
+            vals = []
+        elif cid == b"CVAL":
+            vals.append(unpack("<i", d)[0])
+    return vals
+
+
+def file_level(tkey):
+    """The STORED value is what a written file carries: for every controller and a boundary-complete value alphabet,
+    the k-th CVAL word of the module -- written stand-alone (Synth) and inside a Project -- is v minus a negative
+    minimum (else v), and loading the file gives v back."""
+    import rv.api as rv
+
+    from rvmc import deviate
+
+    t = spec.types()[tkey]
+    cls = cls_of(tkey)
+    vs = []
+    n = 0
+    by_name = {x.name: x for x in t.controllers}
+    for idx, c in enumerate(t.controllers):
+        variants = [(None, None)]
+        if c.kind == "dependent":
+            variants = [(u, r) for u, r in c.ranges.items()]
+        for unit, rng in variants:
+            if c.kind == "enum":
+                vals, lo, offset = sorted(set(c.members.values())), 0, False
+            elif c.kind == "bool":
+                vals, lo, offset = [0, 1], 0, False
+            else:
+                lo, hi = rng or (c.min, c.max)
+                vals = deviate.range_alphabet(lo, hi, 0)
+                offset = lo < 0 and c.kind != "no_offset"
+            for v in vals:
+                for ctxname in ("synth", "project"):
+                    n += 1
+                    m = cls()
+                    if unit is not None:
+                        u = by_name[c.depends_on]
+                        setattr(m, u.attr, u.members[unit])
+                    setattr(m, c.attr, getattr(cls, c.enum)(v) if c.kind == "enum" else bool(v) if c.kind == "bool" else v)
+                    if ctxname == "project":
+                        p = rv.Project()
+                        p.attach_module(m)
+                        data = C.save(p)
+                    else:
+                        data = C.save(rv.Synth(m))
+                    words = _cvals(data, ctxname == "project")
+                    exp = v - lo if offset else v
+                    key = {"type": tkey, "controller": c.name, "ctx": ctxname}
+                    case = {"file_level": tkey}
+                    if idx >= len(words) or words[idx] != exp:
+                        if len(vs) < 6:
+                            vs.append(C.viol("stored-word-in-file", key, {"v": v, "expected": exp,
+                                                                         "stored": words[idx] if idx < len(words) else None}, case))
+                        continue
+                    o = C.load_bytes(data)
+                    m2 = o.modules[1] if ctxname == "project" else o.module
+                    got = getattr(m2, c.attr)
+                    if int(getattr(got, "value", got)) != v and len(vs) < 6:
+                        vs.append(C.viol("file-roundtrip", key, {"v": v, "stored": words[idx], "got": repr(got)}, case))
+    return n, vs
+
+
+PROXY_TARGETS = [("Amplifier", "balance"), ("Amplifier", "volume"), ("Amplifier", "fine_volume"), ("Fmx", "polyphony"),
+                 ("Fmx", "op1_feedback"), ("VorbisPlayer", "finetune"), ("Generator", "waveform"), ("Amplifier", "inverse"),
+                 ("Lfo", "freq"), ("Kicker", "acceleration"), ("Compressor", "release")]
+
+
+def proxy_level(target):
+    """A MetaModule's user-defined controller takes over the range of the controller it is mapped to: the same
+    storage rule, in the object, in a stand-alone file, in a project file and through clone()."""
+    import rv.api as rv
+
+    from rvmc import deviate
+
+    tkey, cname = target
+    t = spec.types()[tkey]
+    c = next(x for x in t.controllers if x.name == cname)
+    cidx = [x.name for x in t.controllers].index(cname)
+    if c.kind == "dependent":
+        lo, hi = next(iter(c.ranges.values()))
+    elif c.kind == "enum":
+        lo, hi = min(c.members.values()), max(c.members.values())
+    elif c.kind == "bool":
+        lo, hi = 0, 1
+    else:
+        lo, hi = c.min, c.max
+    offset = lo < 0 and c.kind != "no_offset"
+    vals = sorted(set(c.members.values())) if c.kind == "enum" else deviate.range_alphabet(lo, hi, 0)
+    vs, n = [], 0
+    for slot in (0, 3):
+        for v in vals:
+            for ctxname in ("object", "synth", "project", "clone"):
+                n += 1
+                mm = rv.m.MetaModule()
+                inner = mm.project.new_module(cls_of(tkey))
+                # the proxy mirrors its target: give the TARGET the value, then let the MetaModule pick it up
+                # (assigning through the proxy is a different operation -- it drives the target -- and is not used here)
+                setattr(inner, c.attr, getattr(cls_of(tkey), c.enum)(v) if c.kind == "enum" else bool(v) if c.kind == "bool" else v)
+                mm.user_defined_controllers = slot + 1
+                mp = mm.mappings.values[slot]
+                mp.module, mp.controller = inner.index, cidx
+                mm.update_user_defined_controllers()
+                name = f"user_defined_{slot + 1}"
+                key = {"proxy_of": f"{tkey}.{cname}", "ctx": ctxname, "kind": c.kind}
+                case = {"proxy_level": list(target)}
+                got0 = getattr(mm, name)
+                if int(getattr(got0, "value", got0)) != v:
+                    if len(vs) < 6:
+                        vs.append(C.viol("proxy-does-not-mirror-target", key, {"v": v, "got": repr(got0)}, case))
+                    continue
+                exp = v - lo if offset else v
+                if ctxname == "object":
+                    raw = mm.get_raw(name)
+                    if raw != exp and len(vs) < 6:
+                        vs.append(C.viol("proxy-raw-value", key, {"v": v, "raw": raw, "expected": exp}, case))
+                    continue
+                if ctxname == "clone":
+                    got = getattr(mm.clone(), name)
+                else:
+                    if ctxname == "project":
+                        p = rv.Project()
+                        p.attach_module(mm)
+                        data = C.save(p)
+                    else:
+                        data = C.save(rv.Synth(mm))
+                    words = _cvals(data, ctxname == "project")
+                    if len(words) <= 5 + slot or words[5 + slot] != exp:
+                        if len(vs) < 6:
+                            vs.append(C.viol("proxy-stored-word-in-file", key, {"v": v, "expected": exp, "words": words[5:]}, case))
+                        continue
+                    o = C.load_bytes(data)
+                    got = getattr(o.modules[1] if ctxname == "project" else o.module, name)
+                if int(getattr(got, "value", got)) != v and len(vs) < 6:
+                    vs.append(C.viol("proxy-file-roundtrip", key, {"v": v, "got": repr(got)}, case))
+    return n, vs
+
+
 def boundary_table(order):
     """(raw(min), raw(max), pattern(min), pattern(min+1), pattern(max)) of every controller, evaluated in the given
     controller order in THIS process — run in fresh interpreters by order_independence()."""
@@ -219,10 +366,22 @@ def order_independence():
 def run_case(case):
     if case.get("order_independence"):
         return order_independence()[1]
+    if case.get("file_level"):
+        return file_level(case["file_level"])[1]
+    if case.get("proxy_level"):
+        return proxy_level(tuple(case["proxy_level"]))[1]
     return sweep(case["type"], case["controller"], case.get("unit"), None, case.get("unit_how", "attr"))[1]
 
 
 def _task(t):
+    if t[0] in ("file_level", "proxy_level"):
+        r = C.new_result()
+        n, vs = file_level(t[1]) if t[0] == "file_level" else proxy_level(t[1])
+        r["evals"] = n
+        r["violations"] = vs
+        r["sample"] = {t[0]: t[1]}
+        C.count(r, t[0], n)
+        return r
     tkey, cname, unit, a, b = t[:5]
     how = t[5] if len(t) > 5 else "attr"
     r = C.new_result()
@@ -262,6 +421,10 @@ def run(ctx):
                             tasks.append((tkey, c.name, u, a, min(b, a + 64), "truncated-file-0"))
                             tasks.append((tkey, c.name, u, a, min(b, a + 64), "truncated-file-k"))
                     a = b + 1 if b == hi else b
+    for tkey in spec.types():
+        tasks.append(("file_level", tkey))
+    for tg in PROXY_TARGETS:
+        tasks.append(("proxy_level", tg))
     from rvmc.runner import rotate
 
     agg = C.Agg()
@@ -278,5 +441,7 @@ def run(ctx):
                 "whole finite domain; distinct_nontrivial = number of distinct (controller, unit, value) ranged pairs",
         "exhaustive": True,
         "controllers": nctl, "sweeps": agg.counters.get("sweeps", 0), "order_independence_comparisons": n_oi,
+        "stored_words_read_from_written_files": agg.counters.get("file_level", 0),
+        "metamodule_proxy_controller_evaluations": agg.counters.get("proxy_level", 0),
         "samples": agg.samples,
     }
